@@ -61,7 +61,7 @@ prop("C09", "nitrocheck",
 prop("C10", "nitrocheck",
      [dict(name="TestC10", quick=700, thorough=10000, thorough_shards=12, steps=40),
       dict(name="TestC10Conc", quick=300, thorough=3000, thorough_shards=4, steps=30),
-      dict(name="TestC10Large", quick=60, thorough=1500, thorough_shards=6)],
+      dict(name="TestC10Large", quick=200, thorough=3000, thorough_shards=8)],
      rule="rapid state machine: histories with bulk puts/deletes (0-300 items, multi-version, older snapshots held open) and Visitor(snapshot, shards 1-40 or > item count, "
           "concurrency 1-8) with a callback error injected at a drawn (shard,index) in a quarter of the visits; oracle: concatenation of the per-shard callback sequences in "
           "shard order == the snapshot's frozen content; injected error => that error is returned; returns within a 20 s watchdog. Non-trivial: >=2 non-empty shards while "
@@ -71,7 +71,11 @@ prop("C10", "nitrocheck",
           "content (non-trivial there as for C01: the visited snapshot had later deletes/re-inserts/retirements/collection). "
           "TestC10Large: databases of 10050-14000 items (Visitor refreshes a shard's cursor every 10000 items; pivots come from higher levels), with drawn windows of "
           "later deletes / delete+re-insert / new keys / same-epoch insert+delete and optional dead-earlier versions placed around the position where the cursor refreshes, "
-          "drawn snapshot releases and a collection pass, then Visitor(shards 1-7, concurrency 1-3) on every open snapshot; same oracle plus Count(). Non-trivial there: "
+          "drawn snapshot releases and a collection pass, then Visitor(shards 1-7, concurrency 1-3) on every open snapshot; same oracle plus Count(); then, in two thirds "
+          "of the cases, a steered visit (1 shard): at 1-4 drawn delivered items (a quarter before, the rest behind the cursor's refresh) the callback deletes the item's key "
+          "and puts it again, and a drawn number (1-6) of cursor steps later - placed through the skiplist's getNext yield point on the visiting goroutine, i.e. a complete "
+          "writer operation between two atomic steps of the visitor - deletes it again, unlinking the new version under or next to the cursor; the delivered sequence must "
+          "still be the snapshot's content and a final snapshot must show the writer's state. Non-trivial there: "
           "some shard delivered more than 10000 items (its cursor was re-created in flight) with such versions around.",
      technique="model-based stateful property testing (shard concatenation vs frozen content, error injection); free-running concurrent visits sampled",
      design_ref="DESIGN.md §3 C10",
